@@ -183,7 +183,9 @@ def main():
     idx = [i for i, o in enumerate(obs) if o is not None]
     if model_ok and idx:
         prelude = mod.prelude(cases) if hasattr(mod, "prelude") else ""
-        terms = [mod.to_gallina(cases[i], obs[i]) for i in idx]
+        pairs = [(i, mod.to_gallina(cases[i], obs[i])) for i in idx]
+        idx = [i for i, t in pairs if t is not None]      # None: case is implementation-side only
+        terms = [t for _, t in pairs if t is not None]
         bad_local, cerrs, coq_s = coqrun.run_cases(pid, mod.RUN_MODULE, terms, prelude=prelude,
                                                    shard=getattr(mod, "SHARD", 300))
         bad = [idx[b] for b in bad_local]
